@@ -205,6 +205,9 @@ func Run(c *engine.Ctx) {
 		rec(0)
 	}
 
+	if c.Thorough() {
+		probeIDMaxN = 4
+	}
 	full := variants([]int{0, 1, 2, 3, 4}, []int{0, 1, 2}, []bool{false, true})
 	noEmpty := variants([]int{0, 2, 3, 4}, []int{0, 1, 2}, []bool{false, true})
 	small := variants([]int{0, 2, 3, 4}, []int{0, 1}, []bool{false})
@@ -383,6 +386,9 @@ func wide(c *engine.Ctx) {
 	}
 }
 
+// probeIDMaxN: largest list size for which the probe also carries each list node's identifier.
+var probeIDMaxN = 2
+
 func matchCase(t *engine.T, cur []variant, pv variant, idNames []string) *engine.Violation {
 	n := len(cur)
 	ambiguous := pv.hasEmpty()
@@ -391,61 +397,73 @@ func matchCase(t *engine.T, cur []variant, pv variant, idNames []string) *engine
 	}
 	base := ""
 	var viol *engine.Violation
-	gen.Permutations(n, func(p []int) {
-		if viol != nil {
-			return
-		}
-		nl := &sbom.NodeList{}
-		for _, i := range p {
-			nl.Nodes = append(nl.Nodes, cur[i].build(idNames[i]))
-		}
-		probe := pv.build("probe")
-		got, err := nl.GetMatchingNode(probe)
-		t.Transitions(1)
-		obs := "nil"
-		if err != nil {
-			if !errors.Is(err, sbom.ErrorMoreThanOneMatch) {
-				viol = engine.Violate("match-error-kind", "", "unexpected error %v", err)
+	variants := n
+	if n > probeIDMaxN {
+		variants = 0 // quick tier: the probe-identifier dimension on lists of <= 2 nodes only
+	}
+	for probeVariant := 0; probeVariant <= variants && viol == nil; probeVariant++ {
+		gen.Permutations(n, func(p []int) {
+			if viol != nil {
 				return
 			}
-			if got != nil {
-				viol = engine.Violate("match-both", "", "returned a node and an error")
-				return
+			nl := &sbom.NodeList{}
+			for _, i := range p {
+				nl.Nodes = append(nl.Nodes, cur[i].build(idNames[i]))
 			}
-			obs = "ambiguous"
-		} else if got != nil {
-			member := false
-			for _, x := range nl.Nodes {
-				if x == got {
-					member = true
+			probeID := "probe"
+			if probeVariant > 0 && len(nl.Nodes) > 0 {
+				// the probe carries the identifier of a node of the list (a copy of a list node, or a node of a document that
+				// reuses the identifiers): the rule does not mention identifiers, so the outcome must be the same
+				probeID = idNames[(probeVariant-1)%len(nl.Nodes)]
+			}
+			probe := pv.build(probeID)
+			got, err := nl.GetMatchingNode(probe)
+			t.Transitions(1)
+			obs := "nil"
+			if err != nil {
+				if !errors.Is(err, sbom.ErrorMoreThanOneMatch) {
+					viol = engine.Violate("match-error-kind", "", "unexpected error %v", err)
+					return
+				}
+				if got != nil {
+					viol = engine.Violate("match-both", "", "returned a node and an error")
+					return
+				}
+				obs = "ambiguous"
+			} else if got != nil {
+				member := false
+				for _, x := range nl.Nodes {
+					if x == got {
+						member = true
+					}
+				}
+				if !member {
+					viol = engine.Violate("match-membership", "", "returned node %q is not an element of the list", got.Id)
+					return
+				}
+				obs = got.Id
+			}
+			if !ambiguous {
+				want := refMatch(nl.Nodes, probe)
+				t.Validated(1)
+				w := "nil"
+				if want.err {
+					w = "ambiguous"
+				} else if want.id != "" {
+					w = want.id
+				}
+				if w != obs {
+					viol = engine.Violate("match-rule", "", "perm %v: GetMatchingNode gives %s, documented rule gives %s", p, obs, w)
+					return
 				}
 			}
-			if !member {
-				viol = engine.Violate("match-membership", "", "returned node %q is not an element of the list", got.Id)
-				return
+			if base == "" {
+				base = obs
+			} else if base != obs {
+				viol = engine.Violate("match-order-dependence", "", "perm %v (probe id %q) gives %s, identity order with probe id \"probe\" gives %s", p, probeID, obs, base)
 			}
-			obs = got.Id
-		}
-		if !ambiguous {
-			want := refMatch(nl.Nodes, probe)
-			t.Validated(1)
-			w := "nil"
-			if want.err {
-				w = "ambiguous"
-			} else if want.id != "" {
-				w = want.id
-			}
-			if w != obs {
-				viol = engine.Violate("match-rule", "", "perm %v: GetMatchingNode gives %s, documented rule gives %s", p, obs, w)
-				return
-			}
-		}
-		if base == "" {
-			base = obs
-		} else if base != obs {
-			viol = engine.Violate("match-order-dependence", "", "perm %v gives %s, identity order gives %s", p, obs, base)
-		}
-	})
+		})
+	}
 	if viol != nil {
 		return viol
 	}
